@@ -46,9 +46,12 @@ OutsideOK(e) ==
   /\ CASE IsAlloc(e) -> TRUE
        [] f.kind = "slice" -> Len(q.oct) >= f.r0 /\ \A i \in 1..f.r0 : q.oct[i] = p.oct[i]
        [] f.kind \in {"iei", "len"} -> SeqEq(q.oct, p.oct)
-       [] OTHER -> /\ Len(q.oct) = Len(p.oct)
-                   /\ \A i \in 1..Len(p.oct) :
-                        IF (i - 1) \notin Rows(f, Len(p.oct)) THEN q.oct[i] = p.oct[i]
+       [] OTHER -> LET L == Len(p.oct)
+                       rows == Rows(f, L) IN
+                   /\ Len(q.oct) = L
+                   /\ \A i \in 1..L :
+                        IF (i - 1) \notin rows THEN q.oct[i] = p.oct[i]
+                        ELSE IF (i - 1) * 8 >= LoPos(f) /\ (i - 1) * 8 + 7 <= HiPos(f) THEN TRUE    \* wholly inside the field
                         ELSE \A k \in 0..7 : LET pos == (i - 1) * 8 + k IN
                                (pos < LoPos(f) \/ pos > HiPos(f)) => BitAt(q.oct, pos) = BitAt(p.oct, pos)
 FieldOK(e) ==
@@ -87,15 +90,18 @@ RECURSIVE OtherSum(_, _, _)
 OtherSum(q, f, i) == IF i > Len(q.oct) THEN 0
                      ELSE (IF i - 1 < f.r0 \/ i - 1 > f.r1 THEN i * q.oct[i] ELSE 0) + OtherSum(q, f, i + 1)
 OtherOf(q, f) == OtherSum(q, f, 1) + (IF q.iei >= 0 THEN 3 * q.iei ELSE 0) + (IF q.len >= 0 THEN 5 * q.len ELSE 0)
-DigMain(e, p, Fix(_, _)) ==
-  FoldSet(LAMBDA x, acc : (acc + (1 + x) * (MainOf(Fix(SetField(DPrior(e, x), FD(e), e.v), FD(e)), FD(e)) % p)) % p, 0, 0..255)
+\* the three sums in one pass over the 256 priors
+DigMain(e, Fix(_, _)) ==
+  FoldSet(LAMBDA x, acc : LET m == MainOf(Fix(SetField(DPrior(e, x), FD(e), e.v), FD(e)), FD(e)) IN
+                          <<(acc[1] + (1 + x) * (m % P1)) % P1, (acc[2] + (1 + x) * (m % P2)) % P2, (acc[3] + (1 + x) * (m % P3)) % P3>>,
+          <<0, 0, 0>>, 0..255)
 DigOther(e, p) == ((OtherOf(DPrior(e, 0), FD(e)) % p) * 32896) % p      \* sum of the weights 1..256 is 32896
 Same(w, f) == w
 DigestClass(e) ==
   CASE ~(WellFormed(e) /\ FD(e).kind = "bits" /\ e.L > FD(e).r1) -> "badevent"
     [] e.sums2 # <<DigOther(e, P1), DigOther(e, P2), DigOther(e, P3)>> -> "digest"
-    [] e.sums = <<DigMain(e, P1, Same), DigMain(e, P2, Same), DigMain(e, P3, Same)>> -> "ok"
-    [] Low6Field(FD(e)) /\ e.sums = <<DigMain(e, P1, Low6), DigMain(e, P2, Low6), DigMain(e, P3, Low6)>> -> "low6"
+    [] e.sums = DigMain(e, Same) -> "ok"
+    [] Low6Field(FD(e)) /\ e.sums = DigMain(e, Low6) -> "low6"
     [] OTHER -> "digest"
 
 Class(e) == IF e.op = "Digest" THEN DigestClass(e) ELSE IF e.op = "Set" THEN ClassOf(e) ELSE "badevent"
